@@ -196,8 +196,9 @@ func (t *Topic) procPresReq(fromUserID, what string, wantReply bool) string {
 			}
 		} else if cmd != "rem" {
 			// Got request from a new topic. This must be a new subscription. Record it.
-			// If it's unknown, recording it as offline.
-			t.addToPerSubs(fromUserID, onlineUpdate, cmd == "en")
+			// If it's unknown, recording it as offline. If updates are not enabled, keep the other user
+			// off, like above: otherwise the 'on' which follows enabling is taken for no change and dropped.
+			t.addToPerSubs(fromUserID, onlineUpdate && cmd == "en", cmd == "en")
 
 			if cmd != "en" {
 				// If the connection is not enabled, ignore the update.
